@@ -8,6 +8,7 @@ Events: exceptions, shapes and finiteness observed at the client boundary of
 import math
 import random
 
+import casadi as cs
 import numpy as np
 
 from vf import compiled as C, desc as D, drive, gen as G, monitors, oracle as O, refmodel as R, workloads as W
@@ -172,8 +173,18 @@ def one_network(M, rec, rng, g, desc, built, tier):
                     rec.violation(f"{PROP}:compiled function with declared parameters has free symbols ({st})", case_p)
             except Exception as e:
                 _exc(rec, f"to_function(compact={compact},more_out={mo},symbolic parameters)", st, e, case_p)
-    for st in ("SX", "MX"):
-        eng = CE(st)
+    # (every third network: ONE engine object, switched to the other symbol type through its public `sym_type`
+    # attribute - the way the NumPy engine is re-configured through `var_type`)
+    one_object = rng.random() < 0.34
+    sts = ("SX", "MX") if rng.random() < 0.5 else ("MX", "SX")
+    shared_eng = None
+    for st in sts:
+        if one_object and shared_eng is not None:
+            eng = shared_eng
+            eng.sym_type = getattr(cs, st)
+            rec.count("casadi_engines_switched_to_the_other_symbol_type")
+        else:
+            eng = shared_eng = CE(st)
         opts = {o: True for o in OPTS if rng.random() < 0.25}
         case = dict(case0, pars=pars, opts=opts, engine=st)
         try:
@@ -183,6 +194,13 @@ def one_network(M, rec, rng, g, desc, built, tier):
             continue
         rec.count("steps_ok")
         rec.seen("engine_modes", st)
+        wrong = [f"{nm}_{el.name}" for el in built.elements.values() for grp in (el.states, el.actions, el.disturbances) if grp
+                 for nm, x in grp.items() if not isinstance(x, getattr(cs, st))]
+        if wrong:
+            rec.violation(f"{PROP}:stepping with a CasADi engine whose symbol type is {st} created variables of another type"
+                          + (" (engine object switched through sym_type)" if eng is shared_eng and one_object and st == sts[1] else ""),
+                          dict(case, variables=wrong[:5]))
+            continue
         _check_shapes(rec, built, st, case)
         order = C.live_order(built)
         for compact in (0, 1, 2):
